@@ -2364,20 +2364,35 @@ impl Write for SummaryStream {
         self.buf.extend_from_slice(input);
 
         /*
+         * Only the valid UTF-8 prefix of the buffer can be processed.  An
+         * incomplete multi-byte sequence at the end of the buffer is not an
+         * error, the rest of the character will arrive in a later write.  A
+         * genuinely invalid sequence is reported below, once any complete
+         * records that precede it have been collected.
+         */
+        let (valid, invalid) = match std::str::from_utf8(&self.buf) {
+            Ok(s) => (s, None),
+            Err(e) => {
+                let invalid = e.error_len().map(|_| e);
+                match std::str::from_utf8(&self.buf[..e.valid_up_to()]) {
+                    Ok(s) => (s, invalid),
+                    Err(e) => {
+                        return Err(io::Error::new(
+                            io::ErrorKind::InvalidData,
+                            e,
+                        ))
+                    }
+                }
+            }
+        };
+
+        /*
          * Look for the last complete pkg_summary(5) record, if there are none
          * then go to the next input.
          */
-        let input_string = match std::str::from_utf8(&self.buf) {
-            Ok(s) => {
-                if let Some(last) = s.rfind("\n\n") {
-                    s.get(0..last + 2).unwrap()
-                } else {
-                    return Ok(input.len());
-                }
-            }
-            Err(e) => {
-                return Err(io::Error::new(io::ErrorKind::InvalidData, e))
-            }
+        let input_string = match valid.rfind("\n\n") {
+            Some(last) => &valid[..last + 2],
+            None => "",
         };
 
         /*
@@ -2402,6 +2417,10 @@ impl Write for SummaryStream {
          */
         let slen = input_string.len();
         self.buf = self.buf.split_off(slen);
+
+        if let Some(e) = invalid {
+            return Err(io::Error::new(io::ErrorKind::InvalidData, e));
+        }
 
         Ok(input.len())
     }
